@@ -277,8 +277,9 @@ PROPS["C11"] = {
               {"name": "C11/bounded[... 1500 instances]", "kind": "bounded", "tiers": ("thorough",), "timeout": 3000, "cmd": ["/venv/bin/python", "native/c11_bounded.py", "--thorough"]}],
     "assumptions": ["json.loads and schema.model_validate are deterministic partial externals (succeed iff json_ok(s) / mv#ok(schema,d)); 'instance of the schema that re-validates' "
                     "is pydantic's assumed contract on model_validate's result",
-                    "re.findall / re.sub are deterministic total externals; _coerce_types(_tracked) and _extract_json are used as deterministic functions in the lenient proofs "
-                    "(their bodies — the coercion table — are covered by the bounded stand-in only)",
+                    "re.findall / re.sub are deterministic total externals; _coerce_types_tracked and _extract_json are used as deterministic functions in the lenient proofs "
+                    "(their bodies — the coercion table — are covered by the bounded stand-in only); _coerce_types is PROVED to be the first component of "
+                    "_coerce_types_tracked for the same arguments, which is what makes the plain and the enhanced lenient fold agree on their data",
                     "co-chaperone preprocessors and on_misfold do not raise; the per-strategy dispatcher is havocked in the cascade proof (arbitrary result or arbitrary Exception)",
                     "agreement of fold and fold_enhanced: each pair _fold_X / _fold_X_enhanced is proved against the SAME per-step specification; the whole-run agreement "
                     "(identical pattern order in both variants) is checked by the bounded stand-in"],
@@ -297,17 +298,22 @@ PROPS["C15"] = {
     "extra": [{"name": "C15/bounded[digraphs<=4 nodes; histories depth 4]", "kind": "bounded", "tiers": ("quick",), "cmd": ["/venv/bin/python", "native/c15_bounded.py", "4"]},
               {"name": "C15/bounded[digraphs<=4 nodes; histories depth 5]", "kind": "bounded", "tiers": ("thorough",), "timeout": 3000, "cmd": ["/venv/bin/python", "native/c15_bounded.py", "5"]}],
     "assumptions": ["abstract view of the graph: set of (waiter, blocking, resource) triples; whole-view statements by generalisation over an arbitrary triple",
-                    "DependencyGraph.remove_all_for_agent / remove_dependency (loops with tuple-unpacking filters) and detect_cycle (closure DFS over three mutable sets) are NOT under proof: "
-                    "bounded stand-ins (every digraph with <= 4 nodes and <= 5 edges; histories)",
+                    "DependencyGraph.remove_all_for_agent and remove_dependency ARE proved (for an arbitrary triple; loop over a key snapshot cut with a visit-position invariant, "
+                    "exact membership of the filter comprehension); edge lists are typed as lists of pairs of strings (what add_dependency appends)",
+                    "detect_cycle: the stack discipline of the closure DFS is proved; completeness of the search and that a reported list is a real cycle are "
+                    "bounded only (every digraph with <= 4 nodes and <= 5 edges; histories)",
+                    "trusted facts about dict iteration: each key of the snapshot is visited exactly once (ghost order = bijection onto the key set)",
                     "victim selection (_select_deadlock_victim) and PriorityInheritance frames are covered by the bounded stand-in only",
                     "the reference wait-for relation of the bounded stand-in is maintained from the controller's own BLOCKED/ACQUIRED answers"],
-    "trusted_base": ["injective value injections (instance axioms)", "ghost membership sets for append-only lists"],
-    "explanation": "Deductive part: add_dependency adds exactly its triple to the view (for an arbitrary triple); acquire_resource: a BLOCKED acquisition adds the wait edge "
+    "trusted_base": ["injective value injections (instance axioms)", "ghost membership sets for append-only lists",
+                     "filter comprehension over a list of scalar tuples: x in result <=> x in source and filter(x) (filters without calls)"],
+    "explanation": "Deductive part: add_dependency adds exactly its triple to the view, remove_dependency / remove_all_for_agent remove exactly the triples they name "
+                   "(for an arbitrary triple); acquire_resource: a BLOCKED acquisition adds the wait edge "
                    "(waiter, current owner, resource) and touches no foreign edge; the exactness obligations on successful acquire/release (only the acquirer's own wait may end) "
                    "FAIL on the current tree — the recorded known finding. Bounded part: DFS vs reference on all small digraphs, histories of depth 4 (5 thorough) vs a "
                    "reference wait-for relation, victim checks.",
     "level_text": "Mostly bounded; the deductive core locates the defect (remove_all_for_agent at the two call sites). Known finding, not repaired.",
-    "level_note": "Graph maintenance loops and the DFS are outside the engine's reach; engine and z3 trusted.",
+    "level_note": "Graph maintenance is proved; search completeness of the DFS and victim selection are bounded only; engine and z3 trusted.",
 }
 
 PROPS["C16"] = {
